@@ -181,3 +181,37 @@ pub mod atomic {
         }
     }
 }
+
+/// The key codec, driven with plain integers (the key types are crate-private).
+pub mod keys {
+    use heed::{BytesDecode, BytesEncode};
+
+    use crate::key::{Key, KeyCodec, Prefix, PrefixCodec};
+    use crate::node_id::{NodeId, NodeMode};
+
+    /// Encodes `(index, kind, id)`; `None` when `kind` is not a valid node mode.
+    pub fn encode(index: u16, kind: u8, id: u32) -> Option<Vec<u8>> {
+        let mode = NodeMode::try_from(kind).ok()?;
+        let key = Key::new(index, NodeId { mode, item: id });
+        KeyCodec::bytes_encode(&key).ok().map(|b| b.into_owned())
+    }
+
+    /// Decodes a key into `(index, kind, id)`.
+    pub fn decode(bytes: &[u8]) -> Option<(u16, u8, u32)> {
+        let key = KeyCodec::bytes_decode(bytes).ok()?;
+        Some((key.index, key.node.mode as u8, key.node.item))
+    }
+
+    /// Encodes the scan prefix of an index, optionally restricted to one kind
+    /// (1 = updated, 2 = tree, 3 = item).
+    pub fn prefix(index: u16, kind: Option<u8>) -> Option<Vec<u8>> {
+        let prefix = match kind {
+            None => Prefix::all(index),
+            Some(1) => Prefix::updated(index),
+            Some(2) => Prefix::tree(index),
+            Some(3) => Prefix::item(index),
+            Some(_) => return None,
+        };
+        PrefixCodec::bytes_encode(&prefix).ok().map(|b| b.into_owned())
+    }
+}
